@@ -27,6 +27,12 @@ def main():
             txt = f[:-5] + '.txt'
             desc = open(txt).read().strip().split('\n')[0][:200] if os.path.exists(txt) else 'external benign refactoring'
             out = os.path.join(V, 'corpus', 'benign', 'ext_%s_%s.patch' % (tag, name))
+            if os.path.exists(out):
+                # never overwrite a member of the corpus: another round used the same worktree name
+                k = 2
+                while os.path.exists(os.path.join(V, 'corpus', 'benign', 'ext_%s_v%d_%s.patch' % (tag, k, name))):
+                    k += 1
+                out = os.path.join(V, 'corpus', 'benign', 'ext_%s_v%d_%s.patch' % (tag, k, name))
             with open(out, 'w') as fh:
                 fh.write('# %s (behaviour-preserving refactoring written by an independent sub-agent)\n' % desc.replace('\n', ' '))
                 fh.write(open(f).read())
